@@ -32,6 +32,7 @@ K_LITSRC = 'literal-segment-unescaped-in-finder-source'
 K_CXBACKSLASH = 'complex-segment-backslash-unescaped-in-regex'
 K_NEWLINE = 'complex-segment-matches-before-trailing-newline'
 K_IDENT_NL = 'field-name-with-trailing-newline-accepted'
+K_CXCOMMENT = 'multi-field-segment-text-verbatim-in-finder-comment'
 
 MAX_KEYED = 150_000          # per shard: non-trivial lookups remembered individually
 
@@ -217,6 +218,15 @@ def has_newline_simple_field(template):
         m = M.FIELD.fullmatch(s)
         if m and m.group(1).endswith('\n'):
             return True
+    return False
+
+
+def has_unprintable_complex(template):
+    """A multi-field segment with a character that cannot appear in Python source text (NUL, lone surrogate)."""
+    for s in M.split_template(template):
+        if M.FIELD.search(s) and not M.FIELD.fullmatch(s):
+            if any(c == '\x00' or '\ud800' <= c <= '\udfff' for c in s):
+                return True
     return False
 
 
@@ -519,6 +529,7 @@ def candidates(ops):
         (K_CXBACKSLASH, {i for i, o in enumerate(ops) if o[0] == 'add' and has_backslash_complex(o[1])}),
         (K_ORPHAN, {i for i, o in enumerate(ops) if o[0] == 'add' and o[3] != 'ok' and o[4]}),
         (K_IDENT_NL, {i for i, o in enumerate(ops) if o[0] == 'add' and has_newline_simple_field(o[1])}),
+        (K_CXCOMMENT, {i for i, o in enumerate(ops) if o[0] == 'add' and has_unprintable_complex(o[1])}),
     ]
     return [(k, s) for k, s in cands if s]
 
@@ -669,6 +680,15 @@ CONV_REPS = {
     ('rest', None): ['p', 'no'],
 }
 _reps_cache = {}
+_CONV_REPS_NORM = {}
+
+
+def conv_reps(cname, argstr):
+    """Representative values for a converter; whitespace inside the argument list does not matter."""
+    if not _CONV_REPS_NORM:
+        for (c, a), v in CONV_REPS.items():
+            _CONV_REPS_NORM[(c, None if a is None else ''.join(a.split()))] = v
+    return _CONV_REPS_NORM.get((cname, None if argstr is None else ''.join(argstr.split())), ['7', 'x', '12', '1.5'])
 
 
 def seg_reps(raw, newline=False, lean=False):
@@ -695,7 +715,7 @@ def seg_reps(raw, newline=False, lean=False):
         fieldreps = []
         for p in s.parts:
             if p[0] == 'field':
-                fr = CONV_REPS.get((p[2], p[3]), ['7', 'x', '12', '1.5']) if p[2] else ['v']
+                fr = conv_reps(p[2], p[3]) if p[2] else ['v']
                 fieldreps.append(fr[:2] if lean else fr)
         if s.kind == M.SIMPLE:
             r = list(fieldreps[0])
@@ -887,7 +907,11 @@ SPECIALS = ['/a/{p:path}/b', '/a/b/{p:path}x', '/a/{x1}/b', '/a/b/c', '/{x0}/{x1
             '/{x0:float(min=0, max=100, finite=False)}', '/r/{y1:float(max=0.0, finite=False)}_{w1:float(min=1.5, finite=False)}',
             # two converter classes that share a __name__, used with textually identical arguments
             '/t/{x1:tagA(True)}', '/u/{x1:tagB(True)}', '/u/{y1:tagB(upper=True)}_{w1:tagA(upper=True)}',
-            '/t/{x1:tagA(True)}/{x2:tagB(True)}']
+            '/t/{x1:tagA(True)}/{x2:tagB(True)}',
+            # white space, including line breaks, inside the argument list of a converter (legal inside a field)
+            '/i/{y1:int(min=5,\n max=10)}-{w1}', '/i/{y1:int(min=5,\r max=10)}_{w1}', '/{x0:int(min=5,\r\n max=10)}',
+            '/i/{y1:float(min=0,\t max=100,\n\n finite=False)}.{w1:int( 2 )}', '/{y0:int(\n2\n)}.{w0}',
+            '/i/{y1}-{w1:dt(\n"%Y-%m-%d"\x0c)}']
 REFUSED_SPECIALS = [
             # multi-field segments with 2-3 converter fields and a multi-segment converter at every position
             # (expected to be refused; if one is accepted, the lookups that follow must still not fail)
@@ -899,7 +923,9 @@ REFUSED_SPECIALS = [
 # segment such a template is refused with an error that is not UnacceptableRouteError, below new segments
 REFUSED_SPECIALS += ['/f/{y1\n}.json', '/f/g/{y2\n}-{w2}', '/f/x{y1\n:int}', '/{y0\n}.{w0}/g']
 # ... and as a whole-segment field (recorded finding K_IDENT_NL while the real router accepts it)
-NEWLINE_NAME_SPECIALS = ['/{x0\n}', '/f/{x1\n:int}']
+NEWLINE_NAME_SPECIALS = ['/{x0\n}', '/f/{x1\n:int}',
+                         # characters that cannot be written into Python source text, in every segment kind
+                         '/{y0}\x00{w0}', '/f/x\x00{y1}', '/{y0}\ud800{w0}', '/f/a\x00b', '/f/a\udfffb/{x2}']
 REFUSED_PARTNERS = ['/f/{x1}', '/f/g', '/{x0}/g', '/f/{y1:int}.{w1}']
 
 PAIR_SHAPES = {
@@ -1133,6 +1159,7 @@ def cohabitation(rec):
 LIT_TOKENS = ['a', 'b', 'ab', 'abc', 'A', 'x', '1', '12', '.', '+', '(', ')', '[', ']', '?', '$', '*', '^', '|',
               '-', '_', '~', '%41', 'é', ',', ';', '=', '@', '!', '&', '#', '"']
 HOSTILE_TOKENS = ["'", '\\', '\\d', '\\b', "a'b", '\\n']
+UNPRINTABLE_TOKENS = ['\x00', 'a\x00', '\ud83d', '\udc00z']     # cannot be written into Python source text as they are
 CONV_CHOICES = [None, None, None, ('int', None), ('int', '2'), ('int', 'min=5, max=10'), ('int', '2, min=10, max=50'),
                 ('float', 'min=0, max=100, finite=False'), ('float', 'max=0.0, finite=False'),
                 ('float', 'min=1.5, finite=False'), ('float', 'min=0, max=100, finite=True'), ('float', 'finite=True'),
@@ -1156,6 +1183,8 @@ class Gen:
         toks = [rng.choice(LIT_TOKENS) for _ in range(rng.choice([1, 1, 1, 2, 3]))]
         if self.hostile == where and rng.random() < 0.35:
             toks.insert(rng.randint(0, len(toks)), rng.choice(HOSTILE_TOKENS))
+        if self.hostile == 'nul' and rng.random() < 0.3:
+            toks.insert(rng.randint(0, len(toks)), rng.choice(UNPRINTABLE_TOKENS))
         return ''.join(toks)
 
     def field(self, name, allow_conv=True):
@@ -1164,7 +1193,11 @@ class Gen:
             return '{%s}' % name
         if c[1] is None:
             return '{%s:%s}' % (name, c[0])
-        return '{%s:%s(%s)}' % (name, c[0], c[1])
+        args = c[1]
+        if self.rng.random() < 0.2:         # white space is legal inside a field expression
+            ws = self.rng.choice(['\n', '\r', '\r\n', '\t', ' \n ', '\x0c', '  '])
+            args = self.rng.choice([args.replace(', ', ',' + ws), ws + args, args + ws, ws + args.replace(', ', ws + ',') + ws])
+        return '{%s:%s(%s)}' % (name, c[0], args)
 
     def simple(self, level):
         return self.field('n%d' % level)
@@ -1332,7 +1365,7 @@ def history_paths(rng, attempted, n, newline):
 def random_history(rec, rng):
     # one family of recorded-finding triggers per history at most, so that attribution stays narrow
     fam = rng.random()
-    hostile = 'lit' if fam < 0.06 else 'cx' if fam < 0.12 else None
+    hostile = 'lit' if fam < 0.05 else 'cx' if fam < 0.09 else 'nul' if fam < 0.12 else None
     orphaning = 0.12 <= fam < 0.27
     newline = 0.27 <= fam < 0.5
     g = Gen(rng, hostile, orphaning)
